@@ -181,9 +181,9 @@ def _run(chk):
         except Exception as e:
             chk.tie_broken("case-construction", f"{cls}: {type(e).__name__}: {e}")
     # ---- stores: all four stripped reader modes on full / stripped JSON and full XML
-    for i in range(n_store):
+    for i in range(-1, n_store):
         g = aasgen.Gen(rng, strings="plain", depth=3)
-        store = g.store(rng.randint(1, 3))
+        store = g.sweep_store() if i < 0 else g.store(rng.randint(1, 3))   # store -1: the deterministic value sweep
         chk.seen(("store", i))
         want = strip_canon(c03.strip_type(aasgen.canon_store(store)))
         docs = {}
